@@ -3,22 +3,22 @@
 import json, os, subprocess
 
 P = {
- 'C01': ('ordered collect == sequential chain', "Every interleaving of 2 workers (FULL) and all schedules with <= 1-2 preemptions / <= 2 delays of 3 workers, of the spawner and the workers of the five ordered-collect kernels (both chunk paths, Vec/SplitVec/FixedVec targets, known- and unknown-length wrapped sources, all 2^N filter masks), plus every one of the 95 transformation chains x 21 source kinds x inputs of length 0..4(5) (incl. duplicates) x parameter settings under two base schedules; each execution of the real code compared with the sequential reference chain.", '7 C01'),
- 'C02': ('find/first/any/all return the first match in source order', "All 2^N predicates x every interleaving of 2 workers on the three find kernels (both chunk paths, Vec and by-value sources), 3 workers with matches in different chunks under PB(2)/DB(2), the *_with_index variants on the concrete builder types, and all chains x sources x inputs x predicates under base schedules; result (and index) compared with the first match of the sequential chain.", '7 C02'),
- 'C03': ('reduce family == sequential fold', "Every interleaving of 2 workers / bounded schedules of 3 workers over the three reduce kernels (chunk sizes 1..3, all filter masks incl. 'nothing survives' and 'one worker gets everything') with a hash-sum operator (a lost or duplicated element changes the sum), xor, min, max; the provided wrappers on one chain per builder type; all chains x sources under base schedules.", '7 C03'),
+ 'C01': ('ordered collect == sequential chain', "Every interleaving of 2 workers (FULL) and all schedules with <= 1-2 preemptions / <= 2 delays of 3 workers, of the spawner and the workers of the five ordered-collect kernels (both chunk paths, Vec/SplitVec/FixedVec targets, known- and unknown-length wrapped sources, all 2^N filter masks), plus every one of the 95 transformation chains x 41 source kinds (incl. concurrent iterators advanced before into_par(), both VecDeque layouts, 64 KiB items) x inputs of length 0..4(5) (incl. duplicates) x parameter settings under two base schedules; inputs of 300-5000 and of 400 000 elements, sources in a particular state x chunks of 64/100/Auto, zero-sized / 136-byte / 64 KiB output types, and computations built on a worker thread of another computation under base schedules; each execution of the real code compared with the sequential reference chain.", '7 C01'),
+ 'C02': ('find/first/any/all return the first match in source order', "All 2^N predicates x every interleaving of 2 workers on the three find kernels (both chunk paths, Vec and by-value sources), 3 workers with matches in different chunks under PB(2)/DB(2), the *_with_index variants on the concrete builder types, 4 workers with <= 6 delays, and all chains x sources x inputs x predicates under base schedules (incl. 400 000-element inputs with the only match near the end, advanced concurrent iterators with chunks of 64/100 elements, 64 KiB items); result (and index) compared with the first match of the sequential chain.", '7 C02'),
+ 'C03': ('reduce family == sequential fold', "Every interleaving of 2 workers / bounded schedules of 3 workers over the three reduce kernels (chunk sizes 1..3, all filter masks incl. 'nothing survives' and 'one worker gets everything') with a hash-sum operator (a lost or duplicated element changes the sum), xor, min, max; the provided wrappers on one chain per builder type, incl. min / max over items whose Ord has ties between distinguishable elements; all chains x sources under base schedules; 400 000-element inputs, advanced concurrent iterators, 64 KiB items.", '7 C03'),
  'C04': ('count / for_each visit every survivor exactly once', "Every interleaving of 2 workers / bounded schedules of 3 workers over the three count kernels (both chunk paths, all filter masks) and all chains x sources x inputs under base schedules; count and the multiset of for_each arguments compared with the sequential chain.", '7 C04'),
  'C05': ('closures exactly once; by-value source exclusive', "The call log (stage, argument) of every explored execution of the full-visit terminals must equal the sequential multiset, of the short-circuit terminals be a sub-multiset; a dedicated harness puts scheduling points *inside* the by-value source's next() (the dependency's busy-wait is made visible through a spin hook) and checks that no two threads are ever inside it and that every yielded element is fed to the first stage exactly once.", '7 C05'),
  'C06': ('collect_into appends', "Vec / SplitVec<Doubling|Linear> / FixedVec targets x previous contents (0,1,3 elements, with and without spare capacity) x the four collect kernels and ParEmpty x known / unknown source length x parallel / num_threads(1), every interleaving of 2 workers for the offset writes of the map-only kernel, bounded schedules elsewhere; result compared with previous contents ++ sequential chain.", '7 C06'),
  'C07': ('collect_x is a permutation', "Every interleaving of 2 workers / bounded schedules of 3 workers over the three collect_x kernels (both chunk paths, inputs with duplicate values, all filter masks) and all chains x sources under base schedules; sorted result compared with the sorted sequential result.", '7 C07'),
  'C08': ('Max(n) bounds concurrency, Max(1) runs on the caller', "Scheduling points at every closure entry: for n in 1..3, lengths n-1..2n+1, both chunk paths and each of the three spawn loops (plus pipelines with an eager stage) the number of threads inside closures is checked in every reached state and the distinct threads per closure at the end, under all schedules with <= 2 preemptions / <= 2 delays; Max(1): every terminal of every chain x source runs on thread 0 with zero spawns.", '7 C08'),
- 'C09': ('sequential mode == std iterator', "No schedule dimension (single thread): all 95 chains x 21 source kinds x 24 terminals x chunk settings x inputs 0..4 x closure variants with num_threads(1) on the source; per-stage argument *sequences*, every terminal's value (non-commutative / non-associative reduce and fold included) and the lazy evaluation order of short-circuit terminals compared with the sequential reference, which itself is validated against real std::iter adaptor chains by the self test.", '7 C09'),
- 'C10': ('short-circuit terminals stop consuming', "Endless and long sources, 2-3 workers, chunk sizes 1..3, match positions 0..5: all schedules within the preemption / delay bound under bounded-waiting fairness (a thread enabled K times in a row without being chosen is chosen next); an execution that exceeds the decision horizon is a termination violation; in every execution no pull that starts after skip_to_end obtains elements and a finder calls skip_to_end; sequential clause: the evaluated (stage, argument) sequence equals that of a lazy std chain.", '7 C10'),
- 'C11': ('Exact(c): every pull takes exactly c', "6 and 7 workers (workers spawned after the first lag period), c in {1,2}, N in {10c, 20c, 20c+1}, all three spawn loops, wrapped Vec and by-value sources: delay-bounded exploration from the round-robin base schedule (DB(1..2)) + the non-preemptive base; 2-3 workers: all schedules with <= 2 preemptions over every kernel; every logged pull must obtain exactly c elements except one that ends at the source's end; unwrapped sources: the block -> thread map from the first closure.", '7 C11'),
- 'C12': ('parameters propagate unchanged', "Explicit walk of the builder automaton (8 builder types x 4 transformations) x parameter values: for every chain and every position the setters num_threads / chunk_size are called with every value of the alphabet (usize and enum forms, both call orders), pairs of positions with all value combinations (thorough: the full product over all positions); after every step params() must equal the trivial model (last value set, else Auto) and is_sequential() <=> Max(1).", '7 C12'),
- 'C13': ('owned elements dropped exactly once', "Drop-observing item type (canary + global live/dropped table): every interleaving of 2 workers / bounded schedules of 3 workers over all terminals (find on a prefix, collect_into with previous contents, ordered merge, collect_x, reduce, ...) on owning sources, plus all 95 chains (eager ones included) sequentially and in parallel; after the result is dropped nothing is live, nothing was dropped twice, no garbage was dropped.", '7 C13'),
- 'C14': ('panicking closure propagates, no memory corruption', "Fault enumeration x schedules: for each kernel / terminal the closure of every stage panics on every element position (also the predicate and the reduce operator), every interleaving of 2 workers for the map-only collects and PB(1)+DB(1..2) elsewhere, real unwinding through std::thread::scope; the call must panic too (never return, hang, abort: a dead child process or an exceeded horizon is a violation) and the drop table must show no double drop and no drop of never-initialised memory.", '7 C14'),
- 'C15': ('parameters never change a result', "Configuration grid N in {0..8,33,100} x num_threads in {Auto,1,2,3,5,8,64} x chunk in {Auto, Exact(c), Min(c): c in 1..10, N-1, N, N+1, 64, 2^20, usize::MAX/2, usize::MAX/2+1, usize::MAX} x 10 terminals x one pipeline per kernel x known / unknown length, under both base schedules, in a build with overflow checks and debug assertions; each result compared with the reference and with the num_threads(1) run; plus an exhaustive sweep of the parameter-resolution functions (calc_chunk_size, set/auto_num_threads, do_spawn, next_chunk_size).", '7 C15'),
- 'C16': ('laziness', "Every one of the 32 builder transitions (all 95 chains) x 21 source constructors x setter positions: probes after construction and after every transformation read the closure-call, source-consumption, spawn and value-creation counters; any work before the terminal call is attributed to the transformation during which it appeared; with sequential parameters in effect at the terminal all of its work must run on the caller.", '7 C16'),
+ 'C09': ('sequential mode == std iterator', "No schedule dimension (single thread): all 95 chains x 41 source kinds x 39 terminals x chunk settings x inputs 0..4 x closure variants with num_threads(1) on the source; per-stage argument *sequences*, every terminal's value (non-commutative / non-associative reduce and fold included) and the lazy evaluation order of short-circuit terminals compared with the sequential reference, which itself is validated against real std::iter adaptor chains by the self test.", '7 C09'),
+ 'C10': ('short-circuit terminals stop consuming', "Endless and long sources, 2-3 workers, chunk sizes 1..3, match positions 0..5: all schedules within the preemption / delay bound under bounded-waiting fairness (a thread enabled K times in a row without being chosen is chosen next); an execution that exceeds the decision horizon is a termination violation; in every execution no pull that starts after skip_to_end obtains elements and a finder calls skip_to_end; lazily produced and endless flat_map expansions (an expansion advanced 5 000 times past its match is a violation); the range 1..usize::MAX as a source; sequential clause: the evaluated (stage, argument) sequence equals that of a lazy std chain.", '7 C10'),
+ 'C11': ('Exact(c): every pull takes exactly c', "6 and 7 workers (workers spawned after the first lag period), c in {1,2}, N in {10c, 20c, 20c+1}, all three spawn loops, wrapped Vec and by-value sources: delay-bounded exploration from the round-robin base schedule (DB(1..2)) + the non-preemptive base; 2-3 workers: all schedules with <= 2 preemptions over every kernel; every logged pull must obtain exactly c elements except one that ends at the source's end (also for 64 KiB items with Exact(1100): a 70 MiB chunk); unwrapped sources: the block -> thread map from the first closure.", '7 C11'),
+ 'C12': ('parameters propagate unchanged', "Explicit walk of the builder automaton (8 builder types x 4 transformations) x parameter values: for every chain and every position the setters num_threads / chunk_size are called with every value of the alphabet (usize and enum forms, both call orders), pairs of positions with all value combinations (thorough: the full product over all positions); after every step params() must equal the trivial model (last value set, else Auto) and is_sequential() <=> Max(1); the same walk with the computation built inside a closure of another parallel computation (on a worker thread).", '7 C12'),
+ 'C13': ('owned elements dropped exactly once', "Drop-observing item type (canary + global live/dropped table): every interleaving of 2 workers / bounded schedules of 3 workers over all terminals (find on a prefix, collect_into with previous contents, ordered merge, collect_x, reduce, ...) on owning sources, plus all 95 chains (eager ones included) sequentially and in parallel, 400 000-element inputs (per-worker buffers of > 8 MiB), 64 KiB items, advanced concurrent iterators; after the result is dropped nothing is live, nothing was dropped twice, no garbage was dropped.", '7 C13'),
+ 'C14': ('panicking closure propagates, no memory corruption', "Fault enumeration x schedules: for each kernel / terminal the closure of every stage panics on every element position (also the predicate and the reduce operator), every interleaving of 2 workers for the map-only collects and PB(1)+DB(1..2) elsewhere, several workers panicking in one run, string and non-string payloads, faults in the middle / at the end of chunks of 1024 / 2048 elements, faults on unbounded sources (bounded-fair schedules), real unwinding through std::thread::scope; the call must panic too (never return, hang, abort: a dead child process or an exceeded horizon is a violation) and the drop table must show no double drop and no drop of never-initialised memory.", '7 C14'),
+ 'C15': ('parameters never change a result', "Configuration grid N in {0..8,33,100} x num_threads in {Auto,1,2,3,5,8,64} x chunk in {Auto, Exact(c), Min(c): c in 1..10, N-1, N, N+1, 64, 2^20, usize::MAX/2, usize::MAX/2+1, usize::MAX} x 10 terminals x one pipeline per kernel x known / unknown length, under both base schedules, in a build with overflow checks and debug assertions; each result compared with the reference and with the num_threads(1) run; collects into 136-byte and 64 KiB output types under Exact / Auto / Min chunk sizes; plus an exhaustive sweep of the parameter-resolution functions (calc_chunk_size, set/auto_num_threads, do_spawn, next_chunk_size).", '7 C15'),
+ 'C16': ('laziness', "Every one of the 32 builder transitions (all 95 chains) x 41 source constructors x setter positions (also on a worker thread of another computation; by-value iterators announcing 9 million elements): probes after construction and after every transformation read the closure-call, source-consumption, spawn and value-creation counters; any work before the terminal call is attributed to the transformation during which it appeared; with sequential parameters in effect at the terminal all of its work must run on the caller.", '7 C16'),
 }
 
 NOTE = ("Trusted: rustc/std, the scheduler + explorer + SchedIter wrapper (self-tested: seeded lost update found, replay determinism), the reference interpreter "
